@@ -54,14 +54,28 @@ def bad_stmt(kind, f, s):
     raise ValueError(kind)
 
 
-def gen_files(rng, shape, directives):
-    """shape: statements per file; directives: per file None|'none'|'file'. Returns the GOOD directory
-    as a list of {"name","version","desc","directive","stmts":[text…],"kinds":[…]}."""
+EMPTY_KINDS = ("comment", "directive", "blank", "zero")
+EMPTY_TEXT = {"comment": "-- nothing to do in this version\n", "directive": "-- atlas:nolint destructive\n", "blank": "\n\n", "zero": ""}
+
+
+def first_stmt(shape):
+    """Position of the first statement of the directory (it creates the journal table)."""
+    for f, n in enumerate(shape):
+        if n > 0:
+            return (f, 0)
+    return None
+
+
+def gen_files(rng, shape, directives, empties=None):
+    """shape: statements per file (0 = a statement-less file: comment only / directive only / blank /
+    zero bytes, see `empties`: file index -> kind); directives: per file None|'none'|'file'. Returns the
+    GOOD directory as a list of {"name","version","desc","directive","stmts":[text…],"kinds":[…]}."""
     files = []
+    first = first_stmt(shape)
     for f, n in enumerate(shape):
         stmts, kinds = [], []
         for s in range(n):
-            if f == 0 and s == 0:
+            if (f, s) == first:
                 stmts.append(JOURNAL)
                 kinds.append("journal")
                 continue
@@ -73,6 +87,8 @@ def gen_files(rng, shape, directives):
             kinds.append(k)
         files.append({"name": "%d_f%d.sql" % (f + 1, f + 1), "version": str(f + 1), "desc": "f%d" % (f + 1),
                       "directive": directives[f], "stmts": stmts, "kinds": kinds})
+        if n == 0:
+            files[-1]["empty"] = (empties or {}).get(f) or (empties or {}).get(str(f)) or "comment"
     return files
 
 
@@ -150,7 +166,10 @@ def render(files):
     out = {}
     for f in files:
         head = "-- atlas:txmode %s\n\n" % f["directive"] if f["directive"] else ""
-        out[f["name"]] = head + "".join(st + ";\n" for st in f["stmts"])
+        body = "".join(st + ";\n" for st in f["stmts"])
+        if not f["stmts"] and f.get("empty"):
+            body = EMPTY_TEXT[f["empty"]]
+        out[f["name"]] = head + body
     return out
 
 
